@@ -124,6 +124,7 @@ pub fn public_strategy() -> BoxedStrategy<Req> {
         3 => edwards_encoding().prop_map(|(_, e)| Req::new("ed.decompress", vec![e.to_vec()])),
         2 => (registers(), program(16)).prop_map(|(r, p)| Req::new("ed.history", vec![r, p])),
         1 => sum_many(),
+        1 => byte_pairs(edwards_encoding().prop_map(|(_, e)| e).boxed()).prop_map(|(a, b)| Req::new("ed.compressed_eq", vec![a.to_vec(), b.to_vec()])),
     ].boxed()
 }
 
@@ -172,6 +173,17 @@ pub fn checks(tier: Tier) -> Vec<Check> {
             oracle: Box::new(crate::mops::oracle),
             classify: Box::new(|r: &Req, _| { let n = r.a[0].len() / 32; if n >= 16 { vec!["sum-of->=16-points"] } else { vec!["sum"] } }),
             rule: "Sum over 0..120 points (by reference and by value), independent or related summands (P repeated, P/-P alternating); oracle: the affine model's repeated addition",
+            exhaustive: false,
+            enumerate: None,
+        },
+        Check {
+            name: "C03.compressed-equality".into(),
+            strategy: byte_pairs(edwards_encoding().prop_map(|(_, e)| e).boxed()).prop_map(|(a, b)| Req::new("ed.compressed_eq", vec![a.to_vec(), b.to_vec()])).boxed(),
+            cases: tier.scale(20_000, 10),
+            exec: Box::new(crate::ops::exec),
+            oracle: Box::new(crate::mops::oracle),
+            classify: Box::new(|r: &Req, _| if r.a[0] != r.a[1] && r.a[0][..31] == r.a[1][..31] { vec!["aliases-differing-in-the-top-byte"] } else { vec!["pair"] }),
+            rule: "CompressedEdwardsY ct_eq / == / Hash / is_identity are defined on the 32 bytes as given: pairs that are equal, differ only in bit 255, differ by p, differ in one bit, or are unrelated",
             exhaustive: false,
             enumerate: None,
         },
